@@ -55,6 +55,16 @@ def gen_line(rng):
             break
     horizon = rng.choice([5, 10, 17.5, 30, 60, 100, 300])
     x = rng.random()
+    if x > 0.995:
+        # scale: more than a thousand parts maturing in one buffer at the same instant and leaving it in one event
+        nparts = rng.choice([1100, 1500])
+        st = [{'kind': 'source', 'ct': 0, 'budget': nparts},
+              {'kind': 'buffer', 'cap': None, 'delay': rng.choice([0.5, 1, 2])},
+              rng.choice([{'kind': 'buffer', 'cap': None, 'delay': 0}, {'kind': 'buffer', 'cap': None, 'delay': 0.5}]),
+              {'kind': 'sink', 'ct': 0}]
+        if rng.random() < 0.5:
+            st.pop(2)
+        return {'stations': st, 'horizon': 6.0, 'scale': 'mass_release'}
     if x < 0.06:
         # extreme ratios on exactly representable values: a delay of 2**30 (or 2**11 with a 2**-21 source cycle) -
         # a relative tolerance where one unit in the last place is meant would let parts go early
